@@ -79,8 +79,18 @@ Proof. intros {vars} Hpath. unfold {T}_path in Hpath; rops. path_facts Hpath.
 
 
 def _pts(rng):
+    if rng.random() < 0.2:  # integer-valued coordinates; run_impl passes these as an int64 array
+        return [[float(rng.randint(-9, 9)) for _ in range(3)] for _ in range(rng.randint(1, 3))]
     sc = 2.0 ** rng.randint(-3, 3)
     return [[x * sc for x in grid_vec(rng)] for _ in range(rng.randint(0, 3))]
+
+
+def _arr(points):
+    """integer-valued point lists become int64 arrays (same values, integer dtype)"""
+    a = np.array(points, dtype=np.float64).reshape(-1, 3)
+    if a.size and np.all(a == np.round(a)) and np.all(np.abs(a) <= 9):
+        return a.astype(np.int64)
+    return a
 
 
 def _rand_call(rng, tier, heavy):
@@ -187,11 +197,10 @@ def run_impl(c):
                 if k == "tag_as":
                     return cm.tag_as(op["name"])
                 if k == "set":
-                    return setattr(cm, op["name"], np.array(op["points"], dtype=np.float64).reshape(-1, 3))
+                    return setattr(cm, op["name"], _arr(op["points"]))
                 if k == "get":
                     return getattr(cm, op["name"])
-                pts = np.array(op["points"], dtype=np.float64).reshape(-1, 3)
-                return cm.do_transform(pts, op["from"], op["to"])
+                return cm.do_transform(_arr(op["points"]), op["from"], op["to"])
 
             if op["c"] == "transform" and op["o"]["op"] == "convert_units":
                 factors[-1] = float(ounce.factor(op["o"]["from"], op["o"]["to"]))
